@@ -2188,6 +2188,13 @@ func (self *Aof) GetLockCommandExpriedTime(lockDb *LockDB, aofLock *AofLock) uin
 		return aofLock.ExpriedTime
 	}
 	if aofLock.ExpriedFlag&protocol.EXPRIED_FLAG_MILLISECOND_TIME != 0 {
+		expriedTimeSeconds := lockDb.currentTime - int64(aofLock.CommandTime)
+		if expriedTimeSeconds > 0 {
+			if int64(aofLock.ExpriedTime) > expriedTimeSeconds*1000 {
+				return aofLock.ExpriedTime - uint16(expriedTimeSeconds*1000)
+			}
+			return 0
+		}
 		return aofLock.ExpriedTime
 	}
 	if aofLock.ExpriedFlag&protocol.EXPRIED_FLAG_MINUTE_TIME != 0 {
